@@ -653,6 +653,402 @@ theorem cdcChunks_eq {σ : Type} (A : Cdc σ) (h : CdcOk A) (rd : Rd) :
   simpa using this
 
 
+/-! ## rabin: the transcribed `Next()` loop -/
+
+/-- `drain_sim` where the offset need not be maintained once nothing is left -/
+theorem drain_sim' {σ : Type} (next : σ → σ × Option Bytes) (cut : Nat → Bytes → Nat)
+    (Inv : σ → Prop) (rem : σ → Bytes) (off : σ → Nat)
+    (hsome : ∀ s, Inv s → rem s ≠ [] → ∃ s', next s = (s', some ((rem s).take (cut (off s) (rem s)))) ∧
+      Inv s' ∧ rem s' = (rem s).drop (cut (off s) (rem s)) ∧ (rem s' = [] ∨ off s' = off s + cut (off s) (rem s)))
+    (hnone : ∀ s, Inv s → rem s = [] → ∃ s', next s = (s', none)) :
+    ∀ fuel s, Inv s → (drain next fuel s).1 = specChunks cut fuel (off s) (rem s) := by
+  intro fuel
+  induction fuel with
+  | zero => intro s _; simp [drain, specChunks]
+  | succ n ih =>
+    intro s hs
+    by_cases h0 : rem s = []
+    · obtain ⟨s', hn⟩ := hnone s hs h0
+      simp [drain, specChunks, hn, h0]
+    · obtain ⟨s', hn, hi, hr, ho⟩ := hsome s hs h0
+      simp only [drain, specChunks, hn, h0, if_false]
+      rw [ih s' hi]
+      rcases ho with ho | ho
+      · rw [ho, ← hr, ho]
+        cases n <;> simp [specChunks]
+      · rw [hr, ho]
+
+def Rab.toCdc {σ : Type} (A : Rab σ) : Cdc σ :=
+  { min := A.min, max := A.max, blk := A.blk, init := A.init, upd := A.upd, isB := A.isB }
+
+/-- the block scan is a prefix of the one-pass scan `cdcScan` -/
+theorem rabScan_cdc {σ : Type} (A : Rab σ) : ∀ (buf : Bytes) (s : σ) (add : Nat),
+    (∀ c rest, rabScan A s add buf = .inl (c, rest) →
+        cdcScan A.toCdc s add buf = some c ∧ rest = buf.drop (c - add) ∧ add < c ∧ c ≤ add + buf.length) ∧
+    (∀ s', rabScan A s add buf = .inr s' →
+        ∀ ys, cdcScan A.toCdc s add (buf ++ ys) = cdcScan A.toCdc s' (add + buf.length) ys) := by
+  intro buf
+  induction buf with
+  | nil =>
+    intro s add
+    refine ⟨fun c rest h => by simp [rabScan] at h, fun s' h ys => ?_⟩
+    simp only [rabScan, Sum.inr.injEq] at h
+    subst h; simp
+  | cons b r ih =>
+    intro s add
+    obtain ⟨ih1, ih2⟩ := ih (A.upd s b) (add + 1)
+    simp only [rabScan]
+    by_cases hmin : add + 1 < A.min
+    · simp only [hmin, if_true]
+      have hc : ¬ (add + 1 ≥ A.toCdc.min ∧ (A.toCdc.isB (A.toCdc.upd s b) = true ∨ add + 1 ≥ A.toCdc.max)) := by
+        simp only [Rab.toCdc]; omega
+      refine ⟨fun c rest h => ?_, fun s' h ys => ?_⟩
+      · obtain ⟨a1, a2, a3, a4⟩ := ih1 c rest h
+        refine ⟨by simp only [cdcScan]; rw [if_neg hc]; exact a1, ?_, by omega, by simp only [List.length_cons]; omega⟩
+        rw [a2]
+        have : c - add = (c - (add + 1)) + 1 := by omega
+        rw [this, List.drop_succ_cons]
+      · have := ih2 s' h ys
+        simp only [cdcScan, List.cons_append, List.length_cons]
+        rw [if_neg hc]
+        show cdcScan A.toCdc (A.upd s b) (add + 1) (r ++ ys) = _
+        rw [this]
+        congr 1; omega
+    · simp only [hmin, if_false]
+      by_cases hcut : A.isB (A.upd s b) = true ∨ add + 1 ≥ A.max
+      · simp only [hcut, if_true]
+        have hc : (add + 1 ≥ A.toCdc.min ∧ (A.toCdc.isB (A.toCdc.upd s b) = true ∨ add + 1 ≥ A.toCdc.max)) := by
+          simp only [Rab.toCdc]; exact ⟨by omega, hcut⟩
+        refine ⟨fun c rest h => ?_, fun s' h ys => by cases h⟩
+        simp only [Sum.inl.injEq, Prod.mk.injEq] at h
+        obtain ⟨h1, h2⟩ := h
+        subst h1 h2
+        refine ⟨by simp only [cdcScan]; rw [if_pos hc], ?_, by omega, by simp only [List.length_cons]; omega⟩
+        have : add + 1 - add = 1 := by omega
+        rw [this]; rfl
+      · simp only [hcut, if_false]
+        have hc : ¬ (add + 1 ≥ A.toCdc.min ∧ (A.toCdc.isB (A.toCdc.upd s b) = true ∨ add + 1 ≥ A.toCdc.max)) := by
+          simp only [Rab.toCdc]; exact fun h => hcut h.2
+        refine ⟨fun c rest h => ?_, fun s' h ys => ?_⟩
+        · obtain ⟨a1, a2, a3, a4⟩ := ih1 c rest h
+          refine ⟨by simp only [cdcScan]; rw [if_neg hc]; exact a1, ?_, by omega, by simp only [List.length_cons]; omega⟩
+          rw [a2]
+          have : c - add = (c - (add + 1)) + 1 := by omega
+          rw [this, List.drop_succ_cons]
+        · have := ih2 s' h ys
+          simp only [cdcScan, List.cons_append, List.length_cons]
+          rw [if_neg hc]
+          show cdcScan A.toCdc (A.upd s b) (add + 1) (r ++ ys) = _
+          rw [this]
+          congr 1; omega
+
+/-- where the chunk under construction will end, from a state in the middle of `Next()`: `U` = bytes not yet
+scanned (rest of the block, then the reader's data) -/
+def rabFinish {σ : Type} (A : Rab σ) (pre count pos : Nat) (dig : Option σ) (U : Bytes) : Nat :=
+  match cdcScan A.toCdc (dig.getD (A.init (pos + pre))) (count + pre) (U.drop pre) with
+  | some c => c
+  | none => count + U.length
+
+/-- the cut function of the rabin splitter: skip `pre0` bytes unhashed, then the first position ≥ min that is a
+boundary or reaches max -/
+def cutRab {σ : Type} (A : Rab σ) (off : Nat) (d : Bytes) : Nat := rabFinish A A.pre0 0 off none d
+
+/-- state in the middle of `Next()`: the first `count` bytes of `chunkbuf` are scanned, the rest is the block -/
+def RabMid {σ : Type} (s : RabSt σ) : Prop :=
+  ∃ S, s.chunkbuf = S ++ s.buf ∧ S.length = s.count ∧ (s.dig.isSome = true → s.pre = 0)
+
+/-- what a finished `Next()` call leaves behind, given everything `D` that was pending and the cut `c` -/
+def RabPost {σ : Type} (A : Rab σ) (s s' : RabSt σ) (D : Bytes) (c : Nat) : Prop :=
+  if s'.closed then s'.chunkbuf ++ s'.r.data = [] ∧ D.drop c = []
+  else s'.count = 0 ∧ s'.chunkbuf = s'.buf ∧ s'.pre = A.pre0 ∧ s'.dig = none ∧
+    s'.chunkbuf ++ s'.r.data = D.drop c ∧ s'.pos = s.pos + (c - s.count)
+
+theorem rab_next_spec {σ : Type} (A : Rab σ) (hblk : 0 < A.blk) : ∀ (fuel : Nat) (s : RabSt σ),
+    s.closed = false → RabMid s → 2 * s.r.data.length + (if s.buf.isEmpty then 1 else 2) ≤ fuel →
+    (s.chunkbuf ++ s.r.data = [] → ∃ s', RabSt.next A fuel s = (s', none) ∧ s'.closed = true) ∧
+    (s.chunkbuf ++ s.r.data ≠ [] → ∃ s', RabSt.next A fuel s =
+        (s', some ((s.chunkbuf ++ s.r.data).take (rabFinish A s.pre s.count s.pos s.dig (s.buf ++ s.r.data)))) ∧
+      s.count ≤ rabFinish A s.pre s.count s.pos s.dig (s.buf ++ s.r.data) ∧
+      RabPost A s s' (s.chunkbuf ++ s.r.data) (rabFinish A s.pre s.count s.pos s.dig (s.buf ++ s.r.data))) := by
+  intro fuel
+  induction fuel with
+  | zero => intro s _ _ h; split at h <;> omega
+  | succ f ih =>
+    intro s hcl hmid hf
+    obtain ⟨S, hcb, hSl, hdig⟩ := hmid
+    simp only [RabSt.next, hcl, Bool.false_eq_true, if_false]
+    by_cases hbe : s.buf.isEmpty = true
+    · -- refill
+      have hb : s.buf = [] := List.isEmpty_iff.mp hbe
+      rw [if_pos hbe]
+      rw [hbe] at hf
+      simp only [if_true] at hf
+      have hG := readFull_got s.r A.blk
+      have hD := readFull_data s.r A.blk
+      rw [hb, List.append_nil] at hcb
+      by_cases hemp : (s.r.readFull A.blk).2.1.isEmpty = true
+      · rw [if_pos hemp]
+        have hdata : s.r.data = [] := by
+          rw [hG] at hemp
+          cases hd : s.r.data with
+          | nil => rfl
+          | cons b r =>
+            rw [hd] at hemp
+            cases hbk : A.blk with
+            | zero => omega
+            | succ k => rw [hbk] at hemp; simp at hemp
+        have hgot : (s.r.readFull A.blk).2.1 = [] := List.isEmpty_iff.mp hemp
+        have hfin : rabFinish A s.pre s.count s.pos s.dig (s.buf ++ s.r.data) = s.count := by
+          simp [rabFinish, hb, hdata, cdcScan]
+        rw [hgot, List.append_nil, hfin, hdata, List.append_nil, hcb]
+        constructor
+        · intro h0
+          have : ¬ s.count > 0 := by rw [← hSl, h0]; simp
+          rw [if_neg this]
+          exact ⟨_, rfl, rfl⟩
+        · intro hne
+          have hpos : s.count > 0 := by
+            rw [← hSl]; exact List.length_pos_iff.mpr hne
+          rw [if_pos hpos]
+          refine ⟨_, rfl, Nat.le_refl _, ?_⟩
+          simp only [RabPost, if_true, hD, hdata]
+          simp [← hSl]
+      · rw [if_neg hemp]
+        have hdne : s.r.data ≠ [] := by
+          intro hd; rw [hG, hd] at hemp; simp at hemp
+        have hdl : 0 < s.r.data.length := List.length_pos_iff.mpr hdne
+        have hgne : (s.r.readFull A.blk).2.1.isEmpty = false := by simpa using hemp
+        have hih := ih { r := (s.r.readFull A.blk).1, closed := false, chunkbuf := s.chunkbuf ++ (s.r.readFull A.blk).2.1, buf := (s.r.readFull A.blk).2.1, count := s.count, pos := s.pos, pre := s.pre, dig := s.dig } rfl
+          ⟨S, by simp [hcb], hSl, hdig⟩
+          (by simp only [hD, List.length_drop, hgne, Bool.false_eq_true, if_false]; omega)
+        have hU : (s.r.readFull A.blk).2.1 ++ (s.r.readFull A.blk).1.data = s.r.data := by
+          rw [hG, hD, List.take_append_drop]
+        simp only [List.append_assoc, hU] at hih
+        rw [hb, List.nil_append]
+        rw [hcb] at hih ⊢
+        exact hih
+    · rw [if_neg hbe]
+      have hbne : s.buf ≠ [] := fun h => hbe (List.isEmpty_iff.mpr h)
+      have hbl : 0 < s.buf.length := List.length_pos_iff.mpr hbne
+      have hbf : s.buf.isEmpty = false := by simpa using hbe
+      rw [hbf] at hf
+      simp only [Bool.false_eq_true, if_false] at hf
+      have hDne : s.chunkbuf ++ s.r.data ≠ [] := by
+        rw [hcb]; intro h
+        have := congrArg List.length h
+        simp only [List.length_append, List.length_nil] at this; omega
+      refine ⟨fun h => absurd h hDne, fun _ => ?_⟩
+      by_cases hpre : s.pre > s.buf.length
+      · -- the whole block lies inside the unhashed prefix
+        rw [if_pos hpre]
+        have hdn : s.dig = none := by
+          cases hd : s.dig with
+          | none => rfl
+          | some _ => have := hdig (by simp [hd]); omega
+        have hih := ih { r := s.r, closed := false, chunkbuf := s.chunkbuf, buf := [], count := s.count + s.buf.length, pos := s.pos + s.buf.length, pre := s.pre - s.buf.length, dig := s.dig } rfl
+          ⟨S ++ s.buf, by simp [hcb], by simp [hSl], fun h => by simp [hdn] at h⟩
+          (by simp only [List.isEmpty_nil, if_true]; omega)
+        obtain ⟨_, h2⟩ := hih
+        obtain ⟨s', hn, hle, hpost⟩ := h2 hDne
+        have hdrop : (s.buf ++ s.r.data).drop s.pre = s.r.data.drop (s.pre - s.buf.length) := by
+          rw [List.drop_append, List.drop_eq_nil_iff.mpr (by omega), List.nil_append]
+        have hfin : rabFinish A (s.pre - s.buf.length) (s.count + s.buf.length) (s.pos + s.buf.length) s.dig
+            ([] ++ s.r.data) = rabFinish A s.pre s.count s.pos s.dig (s.buf ++ s.r.data) := by
+          have e1 : s.pos + s.buf.length + (s.pre - s.buf.length) = s.pos + s.pre := by omega
+          have e2 : s.count + s.buf.length + (s.pre - s.buf.length) = s.count + s.pre := by omega
+          have e3 : s.count + s.buf.length + s.r.data.length = s.count + (s.buf.length + s.r.data.length) := by omega
+          unfold rabFinish
+          rw [List.nil_append, hdrop, e1, e2, List.length_append, e3]
+        have hn' : RabSt.next A f ({ r := s.r, closed := false, chunkbuf := s.chunkbuf, buf := [], count := s.count + s.buf.length, pos := s.pos + s.buf.length, pre := s.pre - s.buf.length, dig := s.dig } : RabSt σ) =
+            (s', some ((s.chunkbuf ++ s.r.data).take (rabFinish A (s.pre - s.buf.length) (s.count + s.buf.length)
+              (s.pos + s.buf.length) s.dig ([] ++ s.r.data)))) := hn
+        have hle' : s.count + s.buf.length ≤ rabFinish A (s.pre - s.buf.length) (s.count + s.buf.length)
+              (s.pos + s.buf.length) s.dig ([] ++ s.r.data) := hle
+        rw [hfin] at hn' hle'
+        refine ⟨s', hn', by omega, ?_⟩
+        have hpost' : RabPost A ({ r := s.r, closed := false, chunkbuf := s.chunkbuf, buf := [], count := s.count + s.buf.length, pos := s.pos + s.buf.length, pre := s.pre - s.buf.length, dig := s.dig } : RabSt σ) s' (s.chunkbuf ++ s.r.data)
+            (rabFinish A (s.pre - s.buf.length) (s.count + s.buf.length) (s.pos + s.buf.length) s.dig
+              ([] ++ s.r.data)) := hpost
+        rw [hfin] at hpost'
+        simp only [RabPost] at hpost' ⊢
+        split
+        · rename_i hc; rw [if_pos hc] at hpost'; exact hpost'
+        · rename_i hc; rw [if_neg hc] at hpost'
+          obtain ⟨a, b, c, d, e, g⟩ := hpost'
+          exact ⟨a, b, c, d, e, by rw [g]; omega⟩
+      · rw [if_neg hpre]
+        have hple : s.pre ≤ s.buf.length := by omega
+        -- the one-pass scan over everything that is left
+        have hUd : (s.buf ++ s.r.data).drop s.pre = s.buf.drop s.pre ++ s.r.data :=
+          List.drop_append_of_le_length hple
+        obtain ⟨sc1, sc2⟩ := rabScan_cdc A (s.buf.drop s.pre) (s.dig.getD (A.init (s.pos + s.pre))) (s.count + s.pre)
+        have hbdl : (s.buf.drop s.pre).length = s.buf.length - s.pre := by simp
+        cases hsc : rabScan A (s.dig.getD (A.init (s.pos + s.pre))) (s.count + s.pre) (s.buf.drop s.pre) with
+        | inl cr =>
+          obtain ⟨add, rest⟩ := cr
+          obtain ⟨a1, a2, a3, a4⟩ := sc1 add rest hsc
+          have hfull := cdcScan_append_some A.toCdc s.r.data _ _ _ _ a1
+          have hfin : rabFinish A s.pre s.count s.pos s.dig (s.buf ++ s.r.data) = add := by
+            simp only [rabFinish, hUd, hfull]
+          rw [hfin]
+          have hle : add ≤ s.chunkbuf.length := by rw [hcb]; simp [hSl]; omega
+          have hrest : rest = s.chunkbuf.drop add := by
+            have h1 : (s.buf.drop s.pre).drop (add - (s.count + s.pre)) = s.buf.drop (add - s.count) := by
+              rw [List.drop_drop]; congr 1; omega
+            have h2 : (S ++ s.buf).drop add = s.buf.drop (add - s.count) := by
+              rw [List.drop_append, List.drop_eq_nil_iff.mpr (by omega), List.nil_append, hSl]
+            rw [a2, hcb, h1, h2]
+          simp only
+          refine ⟨({ r := s.r, closed := false, chunkbuf := s.chunkbuf.drop add, buf := rest, count := 0, pos := s.pos + s.pre + (add - (s.count + s.pre)), pre := A.pre0, dig := none } : RabSt σ), ?_, by omega, ?_⟩
+          · rw [List.take_append_of_le_length hle]
+          · simp only [RabPost, Bool.false_eq_true, if_false]
+            refine ⟨trivial, hrest.symm, trivial, trivial, ?_, by omega⟩
+            rw [List.drop_append_of_le_length hle]
+        | inr d =>
+          have hcont := sc2 d hsc s.r.data
+          simp only
+          have hih := ih { r := s.r, closed := false, chunkbuf := s.chunkbuf, buf := [], count := s.count + s.pre + (s.buf.drop s.pre).length, pos := s.pos + s.pre + (s.buf.drop s.pre).length, pre := 0, dig := some d } rfl
+            ⟨S ++ s.buf, by simp [hcb], by simp [hSl]; omega, fun _ => rfl⟩
+            (by simp only [List.isEmpty_nil, if_true]; omega)
+          obtain ⟨_, h2⟩ := hih
+          obtain ⟨s', hn, hle, hpost⟩ := h2 hDne
+          have hfin : rabFinish A 0 (s.count + s.pre + (s.buf.drop s.pre).length)
+              (s.pos + s.pre + (s.buf.drop s.pre).length) (some d) ([] ++ s.r.data) =
+              rabFinish A s.pre s.count s.pos s.dig (s.buf ++ s.r.data) := by
+            have e3 : s.count + s.pre + (s.buf.drop s.pre).length + s.r.data.length =
+                s.count + (s.buf.length + s.r.data.length) := by rw [hbdl]; omega
+            unfold rabFinish
+            rw [List.nil_append, List.drop_zero, Option.getD_some, Nat.add_zero, hUd, hcont, List.length_append, e3]
+          have hn' : RabSt.next A f ({ r := s.r, closed := false, chunkbuf := s.chunkbuf, buf := [], count := s.count + s.pre + (s.buf.drop s.pre).length, pos := s.pos + s.pre + (s.buf.drop s.pre).length, pre := 0, dig := some d } : RabSt σ) =
+              (s', some ((s.chunkbuf ++ s.r.data).take (rabFinish A 0 (s.count + s.pre + (s.buf.drop s.pre).length)
+                (s.pos + s.pre + (s.buf.drop s.pre).length) (some d) ([] ++ s.r.data)))) := hn
+          have hle' : s.count + s.pre + (s.buf.drop s.pre).length ≤ rabFinish A 0
+                (s.count + s.pre + (s.buf.drop s.pre).length)
+                (s.pos + s.pre + (s.buf.drop s.pre).length) (some d) ([] ++ s.r.data) := hle
+          have hpost' : RabPost A ({ r := s.r, closed := false, chunkbuf := s.chunkbuf, buf := [], count := s.count + s.pre + (s.buf.drop s.pre).length, pos := s.pos + s.pre + (s.buf.drop s.pre).length, pre := 0, dig := some d } : RabSt σ) s'
+              (s.chunkbuf ++ s.r.data) (rabFinish A 0 (s.count + s.pre + (s.buf.drop s.pre).length)
+                (s.pos + s.pre + (s.buf.drop s.pre).length) (some d) ([] ++ s.r.data)) := hpost
+          rw [hfin] at hn' hle' hpost'
+          refine ⟨s', hn', by omega, ?_⟩
+          simp only [RabPost] at hpost' ⊢
+          split
+          · rename_i hc; rw [if_pos hc] at hpost'; exact hpost'
+          · rename_i hc; rw [if_neg hc] at hpost'
+            obtain ⟨a, b, c, e, g, h⟩ := hpost'
+            exact ⟨a, b, c, e, g, by rw [h, hbdl]; omega⟩
+
+def rabRem {σ : Type} (s : RabSt σ) : Bytes := if s.closed then [] else s.chunkbuf ++ s.r.data
+
+/-- between two `Next()` calls -/
+def RabInv {σ : Type} (A : Rab σ) (s : RabSt σ) : Prop :=
+  s.closed = false → s.count = 0 ∧ s.chunkbuf = s.buf ∧ s.pre = A.pre0 ∧ s.dig = none
+
+theorem rab_sim {σ : Type} (A : Rab σ) (hblk : 0 < A.blk) : ∀ fuel (s : RabSt σ), RabInv A s →
+    (drain (fun s => RabSt.next A (2 * s.r.data.length + 4) s) fuel s).1 =
+      specChunks (cutRab A) fuel s.pos (rabRem s) := by
+  apply drain_sim' (fun s => RabSt.next A (2 * s.r.data.length + 4) s) (cutRab A) (RabInv A) rabRem (fun s => s.pos)
+  · intro s hinv hne
+    have hcl : s.closed = false := by
+      cases hh : s.closed with
+      | false => rfl
+      | true => simp [rabRem, hh] at hne
+    obtain ⟨h1, h2, h3, h4⟩ := hinv hcl
+    have hrem : rabRem s = s.chunkbuf ++ s.r.data := by simp [rabRem, hcl]
+    rw [hrem] at hne ⊢
+    have hmid : RabMid s := ⟨[], by simpa using h2, by simp [h1], fun h => by simp [h4] at h⟩
+    obtain ⟨s', hn, _, hpost⟩ := (rab_next_spec A hblk (2 * s.r.data.length + 4) s hcl hmid (by split <;> omega)).2 hne
+    have hc : rabFinish A s.pre s.count s.pos s.dig (s.buf ++ s.r.data) = cutRab A s.pos (s.chunkbuf ++ s.r.data) := by
+      simp only [cutRab, h1, h3, h4, h2]
+    rw [hc] at hn hpost
+    refine ⟨s', hn, ?_, ?_, ?_⟩
+    · intro hcl'
+      simp only [RabPost, hcl', Bool.false_eq_true, if_false] at hpost
+      exact ⟨hpost.1, hpost.2.1, hpost.2.2.1, hpost.2.2.2.1⟩
+    · simp only [RabPost] at hpost
+      cases hcl' : s'.closed with
+      | true => rw [hcl'] at hpost; simp only [if_true] at hpost; simp [rabRem, hcl', hpost.2]
+      | false =>
+        rw [hcl'] at hpost; simp only [Bool.false_eq_true, if_false] at hpost
+        simp [rabRem, hcl', hpost.2.2.2.2.1]
+    · simp only [RabPost] at hpost
+      cases hcl' : s'.closed with
+      | true => left; simp [rabRem, hcl']
+      | false =>
+        right
+        rw [hcl'] at hpost; simp only [Bool.false_eq_true, if_false] at hpost
+        rw [hpost.2.2.2.2.2, h1]; rfl
+  · intro s hinv h0
+    cases hcl : s.closed with
+    | true => exact ⟨s, by simp [RabSt.next, hcl]⟩
+    | false =>
+      obtain ⟨h1, h2, h3, h4⟩ := hinv hcl
+      have hmid : RabMid s := ⟨[], by simpa using h2, by simp [h1], fun h => by simp [h4] at h⟩
+      have h0' : s.chunkbuf ++ s.r.data = [] := by simpa [rabRem, hcl] using h0
+      obtain ⟨s', hn, _⟩ := (rab_next_spec A hblk (2 * s.r.data.length + 4) s hcl hmid (by split <;> omega)).1 h0'
+      exact ⟨s', hn⟩
+
+theorem rabChunks_eq {σ : Type} (A : Rab σ) (hblk : 0 < A.blk) (rd : Rd) :
+    rabChunks A rd = specChunks (cutRab A) (rd.data.length + 1) 0 rd.data := by
+  simp only [rabChunks]
+  have := rab_sim A hblk (rd.data.length + 1) { r := rd, pre := A.pre0 } (by intro _; simp)
+  simpa [rabRem] using this
+
+theorem cutRab_ok {σ : Type} (A : Rab σ) : CutOk (cutRab A) := by
+  intro off d hd
+  have hl : 0 < d.length := List.length_pos_iff.mpr hd
+  simp only [cutRab, rabFinish]
+  split
+  · rename_i c hc
+    have := cdcScan_bounds A.toCdc _ _ _ _ hc
+    simp only [List.length_drop] at this
+    by_cases hp : A.pre0 ≤ d.length
+    · omega
+    · have : d.drop A.pre0 = [] := List.drop_eq_nil_iff.mpr (by omega)
+      rw [this] at hc; simp [cdcScan] at hc
+  · omega
+
+/-- parameters as the parser guarantees them: window ≤ min ≤ max (so `pre` does not wrap) -/
+def RabOk {σ : Type} (A : Rab σ) : Prop :=
+  0 < A.win ∧ A.win ≤ A.min ∧ A.min ≤ A.max ∧ A.min < 2 ^ 64 ∧ 0 < A.blk
+
+theorem pre0_eq {σ : Type} (A : Rab σ) (h : RabOk A) : A.pre0 = A.min - A.win := by
+  obtain ⟨_, h2, _, h4, _⟩ := h
+  simp only [Rab.pre0]
+  have : A.min + 2 ^ 64 - A.win = (A.min - A.win) + 2 ^ 64 := by omega
+  rw [this, Nat.add_mod_right, Nat.mod_eq_of_lt (by omega)]
+
+theorem cutRab_le_max {σ : Type} (A : Rab σ) (h : RabOk A) (off : Nat) (d : Bytes) : cutRab A off d ≤ A.max := by
+  have hp := pre0_eq A h
+  obtain ⟨h1, h2, h3, h4, _⟩ := h
+  have hplt : A.pre0 < A.toCdc.max := by simp only [Rab.toCdc]; omega
+  simp only [cutRab, rabFinish, Nat.zero_add]
+  split
+  · rename_i c hc
+    exact cdcScan_le_max A.toCdc h3 _ _ _ _ hc hplt
+  · rename_i hc
+    have := cdcScan_none_lt A.toCdc h3 _ _ _ hc hplt
+    simp only [List.length_drop, Rab.toCdc] at this hplt
+    omega
+
+theorem cutRab_ge_min {σ : Type} (A : Rab σ) (off : Nat) (d : Bytes) (hlt : cutRab A off d < d.length) :
+    A.min ≤ cutRab A off d := by
+  simp only [cutRab, rabFinish, Nat.zero_add] at hlt ⊢
+  split
+  · rename_i c hc; exact (cdcScan_bounds A.toCdc _ _ _ _ hc).2.2
+  · rename_i hc; rw [hc] at hlt; simp at hlt
+
+/-- with `MinSize < windowSize` the unhashed prefix `MinSize - windowSize` wraps around: everything is one chunk -/
+theorem cutRab_small_min {σ : Type} (A : Rab σ) (hmin : A.min < A.win) (hw : A.win ≤ 2 ^ 64) (off : Nat) (d : Bytes)
+    (hd : d.length ≤ 2 ^ 64 - A.win) : cutRab A off d = d.length := by
+  have hp : d.length ≤ A.pre0 := by
+    simp only [Rab.pre0]
+    rw [Nat.mod_eq_of_lt (by omega)]; omega
+  simp only [cutRab, rabFinish, List.drop_eq_nil_iff.mpr hp, cdcScan, Nat.zero_add]
+
+end C06
+
+namespace C06
+
 /-! ## parser -/
 
 theorem tdiv_neg_le (a : Int) (h : a < 0) : a.tdiv 3 ≤ 0 := by
